@@ -1,8 +1,28 @@
-(* C17 — the button moves to the next player who can play. *)
-From PF Require Import Base ModelSeat ProofsSeatBasic.
+(* C17 — the button moves to the next player who can play, never skipping or stalling.
+   sm_run n ops         : the seat manager of an n-seat table after any history of join / sit-in /
+                          reserve / leave / next operations with any seat arguments
+   playable             : occupied, active, not reserved;  pl s i : seat i of s is playable
+   first_playable_after s d' : scanning clockwise from the seat after the previous dealer (from seat 0
+                          when there is no dealer yet), d' is playable and every seat scanned before it is not *)
+From Coq Require Import Lia.
+From PF Require Import Base ModelSeat ProofsSeatBasic ProofsSeat.
 
-(* the seat found by the clockwise scan is the first playable one: it is playable and every
-   seat scanned before it is not *)
+(* when at least two players were able to play, the move succeeds and the button goes to the first of
+   them clockwise from the previous dealer — for every table size and every history *)
+Theorem C17_button_moves_to_first_playable :
+  forall n ops, let s := sm_run n ops in
+    (2 <= playable_count s)%nat ->
+    exists s' d', sm_next s = (s', SOk) /\ sm_dealer s' = Some d' /\ first_playable_after s d'.
+Proof. intros n ops s H. apply sm_next_moves_button; [exact H|apply sm_run_dealer_ok]. Qed.
+Print Assumptions C17_button_moves_to_first_playable.
+
+(* the same for any state whose dealer is a seat of the table *)
+Theorem C17_button_any_state :
+  forall s, (2 <= playable_count s)%nat -> (forall d, sm_dealer s = Some d -> (d < sm_max s)%nat) ->
+    exists s' d', sm_next s = (s', SOk) /\ sm_dealer s' = Some d' /\ first_playable_after s d'.
+Proof. exact sm_next_moves_button. Qed.
+Print Assumptions C17_button_any_state.
+
 Theorem C17_scan_finds_first_playable :
   forall s idxs start d pos,
     find_active s idxs start = Some (d, pos) ->
@@ -10,3 +30,9 @@ Theorem C17_scan_finds_first_playable :
     (forall k, (k < pos - start)%nat -> forall i, nth_error idxs k = Some i -> playable (get_seat s i) = false).
 Proof. exact find_active_spec. Qed.
 Print Assumptions C17_scan_finds_first_playable.
+
+(* non-vacuity: three seats, two players sat in *)
+Example C17_example :
+  let s := sm_run 3 [OJoin 0 0; OSeat 0; OJoin 2 0; OSeat 2] in
+  (2 <= playable_count s)%nat /\ fst (sm_next s) <> s.
+Proof. split; [vm_compute; lia|vm_compute; discriminate]. Qed.
